@@ -198,6 +198,11 @@ G_Term(cls, m, n, b, seed, depth, mode) ==
             LET cs == IF seed % 2 = 0 THEN <<>> ELSE b
                 c == IF mode = 1 THEN G_Pos(cs, seed + 7) ELSE T_Fill(cs, seed + 7, -3, 3)
             IN Op_ConstMul(sub(m, n, b1, seed + 3), c)
+       \* a constant that broadcasts along an INNER batch dimension (shape b with its last entry replaced by 1)
+       [] cls = "ConstMulBc" ->
+            LET cs == IF Len(b) >= 1 THEN [b EXCEPT ![Len(b)] = 1] ELSE <<1>>
+                c == IF mode = 1 THEN G_Pos(cs, seed + 7) ELSE T_Fill(cs, seed + 7, -3, 3)
+            IN Op_ConstMul(G_Term("Dense", m, n, b1, seed + 3, 0, mode), c)
        [] cls \in {"BlockDiag", "BlockInter"} ->
             \* k blocks of size (m/k) x (n/k); block dim at -3, or moved to the front when seed is odd and b # <<>>
             LET k == G_Factor(n, seed + 1)
@@ -277,7 +282,7 @@ G_AllClasses == <<"Dense", "User", "Diag", "ConstDiag", "Identity", "Zero", "Toe
 G_SquareOnly == {"CholKronTriU", "LowRankHuge", "ConstMulI", "BlockDiagConstMulI", "InterpRootSameIdx", "MatmulTri", "LRRAddedDiagI", "AddedDiagI", "SumI", "Diag", "ConstDiag", "Identity", "Toeplitz", "Tri", "Chol", "CholU", "Root", "LowRankRoot", "Kron3", "KronTri",
                  "KronDiag", "KronAddedDiag", "SumKron", "AddedDiag", "LRRAddedDiag", "PsdSum", "Mul", "BlockDiag",
                  "BlockInter", "Perm", "TransPerm"}
-G_LeafClasses == {"CholKronTriU", "LowRankHuge", "ConstMulI", "BlockDiagConstMulI", "InterpRootSameIdx", "MixedDef", "AddedDiagRootConst", "AddedDiagBig", "DenseBig", "KronCholU", "BlockDiagCholU", "SumInterp", "MatmulTri", "LRRAddedDiagI", "AddedDiagI", "SumI", "Dense", "User", "Diag", "ConstDiag", "Identity", "Zero", "Toeplitz", "Chol", "CholU", "SumZ", "LowRankRoot", "KronTri",
+G_LeafClasses == {"ConstMulBc", "CholKronTriU", "LowRankHuge", "ConstMulI", "BlockDiagConstMulI", "InterpRootSameIdx", "MixedDef", "AddedDiagRootConst", "AddedDiagBig", "DenseBig", "KronCholU", "BlockDiagCholU", "SumInterp", "MatmulTri", "LRRAddedDiagI", "AddedDiagI", "SumI", "Dense", "User", "Diag", "ConstDiag", "Identity", "Zero", "Toeplitz", "Chol", "CholU", "SumZ", "LowRankRoot", "KronTri",
                   "KronDiag", "SumKron", "LRRAddedDiag", "Perm", "TransPerm", "Kernel"}
 \* classes that only exist for PSD arguments
 G_PsdOnly == {"CholKronTriU", "Chol", "CholU", "PsdSum", "Mul"}
